@@ -133,6 +133,13 @@ class C03(Check):
                     xnull = (lo in (0, None))
                     for ctag, c in contexts(x, xnull):
                         items.append(('rep/%s/%s' % (tag, ctag), extra, c))
+        # bounded repetitions of elements that can match nothing (finite, so in the domain)
+        for e in (('opt', ('lit', 'a')), ('rep', ('lit', 'a'), 0, None), ('left', ('opt', ('lit', 'a')), ('opt', ('lit', ',')))):
+            for lo, hi in ((3, 3), (None, 3), (1, 2), (2, 3), (0, 1)):
+                variants = list(rep_variants(e, lo, hi))
+                for tag, extra, x in variants:
+                    for ctag, c in contexts(x, True):
+                        items.append(('rep/nullable-%s/%s' % (tag, ctag), extra, c))
         # bounds computed at parse time may be contradictory (m > n): the repetition must fail
         # (literal m > n is rejected by the constructor; this was F22 until it was fixed)
         for e in ELEMS[:3]:
